@@ -106,7 +106,7 @@ Proof. exact path_clauses_example. Qed.
 (* whole rules (Model/RuleGen.v: the text of a top-level rule - target class, the lines of every constraint of the branch each
    followed by its trace binding, the message bindings, the matches binding - compared line by line with the real module in the
    run): the body is safe for EVERY branch of well-scoped constraint snippets, any number of message placeholders, any names;
-   the count / length, pattern, datatype, numeric-bound, `in` and containsAll / containsSome snippets are well-scoped, whatever their parameters *)
+   the count / length, pattern, datatype, numeric-bound, `in`, containsAll / containsSome and property-pair snippets are well-scoped, whatever their parameters *)
 Theorem C07_rule_bodies_are_safe : forall x branch m, Forall (ok x) branch -> safe_from [] (rule_du x branch m) = true.
 Proof. exact rule_safe. Qed.
 Theorem C07_snippets_are_well_scoped : forall x src rule n,
@@ -115,7 +115,8 @@ Theorem C07_snippets_are_well_scoped : forall x src rule n,
   /\ (forall neg dt tp, ok x (datatype_snippet x src rule n neg dt tp))
   /\ (forall neg cid op kt tp, ok x (numeric_snippet x src rule n neg cid op kt tp))
   /\ (forall n2 neg vals tp, ok x (in_snippet x src rule n n2 neg vals tp))
-  /\ (forall all n2 neg vals tp, ok x (contains_snippet all x src rule n n2 neg vals tp)).
+  /\ (forall all n2 neg vals tp, ok x (contains_snippet all x src rule n n2 neg vals tp))
+  /\ (forall srcB ruleB neg cid op tp, ok x (cmp_snippet x src rule srcB ruleB neg cid op tp)).
 Proof.
   intros x src rule n. repeat split; intros.
   - apply count_snippet_ok.
@@ -124,6 +125,7 @@ Proof.
   - apply numeric_snippet_ok.
   - apply in_snippet_ok.
   - apply contains_snippet_ok.
+  - apply cmp_snippet_ok.
 Qed.
 Theorem C07_rule_text_example :
   rule_lines "violation" "x" "http://example.org/ns#T" "v"
